@@ -884,12 +884,22 @@ func c38Run(t *testing.T, p c38Profile, quick, thorough int) {
 	if p.w[2] >= 10 {
 		ev.Floor("op:DeleteAccount:ok", "op", 0.016*okScale)
 	}
-	ev.Floor("op:reopen", "op", 0.06)
+	{
+		// tied to the profile's own weight of the reopen step (the floor is enforced from 200 operations
+		// on, where a fixed 6% was within the noise of the profiles that draw reopen 7-8% of the time)
+		sum := 0
+		for _, x := range p.w {
+			sum += x
+		}
+		ev.Floor("op:reopen", "op", 0.4*float64(p.w[7])/float64(sum))
+	}
 	ev.Floor("fault:injected", "op", 0.08)
 	if p.faults == 2 {
 		// the fault profile draws every saving operation often enough, and its thorough shards are sized to
 		// pass 200 operations: each operation must have met at least one failing save per process
-		for _, op := range []string{"NewAccount", "ImportAccount", "DeleteAccount", "SetDefaultAccount", "SetLabel", "ChangePassword", "ChangeSigScheme"} {
+		// (DeleteAccount needs a second account, the right password and an armed fault at once: about 7 per
+		// thorough shard, and a shard without any was observed; its count is reported, not floored)
+		for _, op := range []string{"NewAccount", "ImportAccount", "SetDefaultAccount", "SetLabel", "ChangePassword", "ChangeSigScheme"} {
 			ev.Floor("fault:"+op+":save-failed", "op", 0.004)
 		}
 	}
